@@ -60,13 +60,19 @@ func (r *Runner) Run(c context.Context) (result runner.Result) {
 	defer cancel()
 
 	// handle cancel
+	cancelDone := make(chan struct{})
 	go func() {
+		defer close(cancelDone)
 		<-ctx.Done()
 		killAll(pgid)
 	}()
 
 	// kill all tracee upon return
 	defer func() {
+		// the cancellation goroutine signals the process group: let it finish before the group is
+		// reaped, afterwards the pid may belong to somebody else
+		cancel()
+		<-cancelDone
 		killAll(pgid)
 		collectZombie(pgid)
 		result.SetUpTime = fTime.Sub(sTime)
